@@ -272,6 +272,12 @@ func c11History(srv *svc.Server, c *core.Collector, seed uint64, hid int, base i
 		<-odone
 	}
 	var cwg sync.WaitGroup
+	var dialFailed atomic.Bool
+	defer func() {
+		if dialFailed.Load() {
+			incon = true
+		}
+	}()
 	nclients := 4 + r0.Intn(5)
 	if burst {
 		nclients = 0
@@ -289,7 +295,7 @@ func c11History(srv *svc.Server, c *core.Collector, seed uint64, hid int, base i
 				mu.Unlock()
 				t, err := svc.Dial(srv.Addr, r.Bool(), cn.key)
 				if err != nil {
-					incon = true
+					dialFailed.Store(true)
 					return
 				}
 				// terminal reader: records tagged commands, counts replies
